@@ -229,6 +229,11 @@ def work_solver(item):
             H.append([(2, A, 0, c1), (7, A, 0, c1), (3, A, 0, c2), (7, A, 0, c2), (6, A, 0, c2)])                              # query, re-initialise in another configuration, query
     if tier == 'quick':
         H = H[::2]
+    # a moved-from object is initialised again (same and another configuration) and then used
+    for c1 in cfgs:
+        for c2 in (cfgs if tier != 'quick' else [c1, cfgs[(cfgs.index(c1) + 1) % 3]]):
+            H.append([(2, A, 0, c1), (4, B, A, c1), (3, A, 0, c2), (7, A, 0, c2), (7, B, 0, c1), (6, A, 0, c2), (6, B, 0, c1)])
+            H.append([(2, A, 0, c1), (1, B, 0, c1), (5, B, A, c1), (3, A, 0, c2), (7, A, 0, c2), (6, A, 0, c2), (6, B, 0, c1)])
     nrun = 0
     for hist in H:
         st = st0
